@@ -165,4 +165,115 @@ theorem moveFunds_bank_in (src dst : Addr) (hne : src ≠ dst) : ∀ (l : List (
       simp only [] at b1 ⊢
       omega
 
+theorem moveFunds_wa (src dst : Addr) : ∀ (l : List (Denom × Nat)) (s s' : Sys),
+    s.moveFunds src dst l = .ok s' → s'.chain.withdrawAddr = s.chain.withdrawAddr := by
+  intro l
+  induction l with
+  | nil => intro s s' hx; simp only [Sys.moveFunds] at hx; cases hx; rfl
+  | cons c rest ih =>
+    intro s s' hx
+    obtain ⟨d, amt⟩ := c
+    simp only [Sys.moveFunds] at hx
+    split at hx
+    · cases hx
+    · rename_i s1 h1
+      have := ih s1 s' hx
+      unfold Sys.bankMove at h1
+      exc_split at h1
+      exact this
+
+/-- only SetWithdrawAddress changes the withdraw address -/
+theorem handle_withdrawAddr (s s' : Sys) (m : Msg) (ms : List Msg) (hx : s.handle m = .ok (s', ms))
+    (hm : ∀ d a, m ≠ .setWithdrawAddr d a) : s'.chain.withdrawAddr = s.chain.withdrawAddr := by
+  cases m with
+  | setWithdrawAddr d a => exact absurd rfl (hm d a)
+  | bankSend src dst d amt =>
+    simp only [Sys.handle] at hx; exc_norm at hx
+    split at hx
+    · cases hx
+    · rename_i s1 h1
+      unfold Sys.bankMove at h1
+      exc_split at h1
+      cases hx; rfl
+  | delegate who v amt => simp only [Sys.handle] at hx; exc_norm at hx; exc_split at hx; rfl
+  | undelegate who v amt => simp only [Sys.handle] at hx; exc_norm at hx; exc_split at hx; rfl
+  | redelegate who a b amt => simp only [Sys.handle] at hx; exc_norm at hx; exc_split at hx; rfl
+  | withdrawReward who v => simp only [Sys.handle] at hx; exc_norm at hx; exc_split at hx; rfl
+  | wasm a b c d =>
+    obtain ⟨s1, h1, hc⟩ := handle_wasm_chain_eq s s' _ _ _ _ ms hx
+    rw [hc]; exact moveFunds_wa a b d s s1 h1
+
+/-- what a call of a stub can emit: the swap contract pays the proceeds to the named recipient (the
+    caller when none is named); the sink emits nothing -/
+theorem stub_payout (s s' : Sys) (a b : Addr) (sd : Denom) (am : Nat) (dd : Denom) (to : Option Addr)
+    (f : List (Denom × Nat)) (ms : List Msg) (hb : b = swapA ∨ b = sinkA)
+    (hx : s.handle (.wasm a b (.swapDenom sd am dd to) f) = .ok (s', ms)) :
+    ∀ x ∈ ms, ∃ out, x = Msg.bankSend swapA (to.getD a) dd out := by
+  simp only [Sys.handle] at hx
+  exc_norm at hx
+  split at hx
+  · cases hx
+  · rcases hb with hb | hb <;> subst hb
+    · rw [if_neg (by decide), if_neg (by decide), if_neg (by decide), if_neg (by decide), if_neg (by decide),
+        if_neg (by decide), if_pos rfl] at hx
+      exc_split at hx
+      · intro x hx'; cases hx'
+      · intro x hx'
+        simp only [List.mem_cons, List.mem_nil_iff, or_false] at hx'
+        subst hx'
+        cases to <;> exact ⟨_, rfl⟩
+    · rw [if_neg (by decide), if_neg (by decide), if_neg (by decide), if_neg (by decide), if_neg (by decide),
+        if_neg (by decide), if_neg (by decide), if_pos rfl] at hx
+      cases hx
+      intro x hx'; cases hx'
+
+/-- a bank transfer leaves every third account alone -/
+theorem bankMove_other (s s' : Sys) (src dst : Addr) (d : Denom) (amt : Nat)
+    (hx : s.bankMove src dst d amt = .ok s') (a : Addr) (h1 : a ≠ src) (h2 : a ≠ dst) (d' : Denom) :
+    s'.chain.bank a d' = s.chain.bank a d' := by
+  unfold Sys.bankMove at hx
+  exc_split at hx
+  simp [Sys.setBank, upd, h1, h2]
+
+theorem moveFunds_other (src dst : Addr) : ∀ (l : List (Denom × Nat)) (s s' : Sys),
+    s.moveFunds src dst l = .ok s' → ∀ (a : Addr), a ≠ src → a ≠ dst → ∀ d, s'.chain.bank a d = s.chain.bank a d := by
+  intro l
+  induction l with
+  | nil => intro s s' hx a _ _ d; simp only [Sys.moveFunds] at hx; cases hx; rfl
+  | cons c rest ih =>
+    intro s s' hx a h1 h2 d
+    obtain ⟨dn, amt⟩ := c
+    simp only [Sys.moveFunds] at hx
+    split at hx
+    · cases hx
+    · rename_i s1 hm
+      rw [ih s1 s' hx a h1 h2 d, bankMove_other s s1 src dst dn amt hm a h1 h2 d]
+
+/-- funds attached to a call arrive exactly -/
+theorem moveFunds_in_eq (src dst : Addr) (hne : src ≠ dst) : ∀ (l : List (Denom × Nat)) (s s' : Sys),
+    s.moveFunds src dst l = .ok s' → ∀ (d : Denom), s'.chain.bank dst d = s.chain.bank dst d + fundsOf d l := by
+  intro l
+  induction l with
+  | nil => intro s s' hx d; simp only [Sys.moveFunds] at hx; cases hx; simp [fundsOf]
+  | cons c rest ih =>
+    intro s s' hx d
+    obtain ⟨dn, amt⟩ := c
+    simp only [Sys.moveFunds] at hx
+    split at hx
+    · cases hx
+    · rename_i s1 h1
+      have b2 := ih s1 s' hx d
+      rw [fundsOf_cons]
+      have b1 : s1.chain.bank dst d = s.chain.bank dst d + (if dn = d then amt else 0) := by
+        unfold Sys.bankMove at h1
+        exc_split at h1
+        simp only [Sys.setBank, upd]
+        have h2 : ¬ dst = src := fun h => hne h.symm
+        by_cases h3 : d = dn
+        · subst h3; simp [h2]
+        · have : ¬ dn = d := fun h => h3 h.symm
+          simp [h2, h3, this]
+      simp only [] at b1 ⊢
+      omega
+
 end Krp
